@@ -120,8 +120,14 @@ func (m *Machine) refineUF() bool {
 		if len(pending) == 0 {
 			return true
 		}
-		for _, t := range pending {
-			m.Sol.Assert(t)
+		// first try to keep the argument point (pin argument and real value); when no counterexample exists at
+		// that point, only the function's real value there is recorded and the solver moves to another point
+		if m.Sol.CheckWith(pending...) == smt.Sat {
+			for _, t := range pending {
+				m.Sol.Assert(t)
+			}
+		} else {
+			m.Sol.Assert(smt.Implies(pending[0], pending[1]))
 		}
 		if r := m.Sol.Check(); r != smt.Sat {
 			if os.Getenv("VERIF_DEBUG") != "" {
